@@ -15,10 +15,31 @@ Definition num (o : obs) : N := match o with ON n => n | _ => 0 end.
 (* ---- decoding nodes printed by the driver ---- *)
 Definition tok_of_code (c : N) : list N :=
   if c =? 0 then seq_token SeqOf else if c =? 1 then seq_token (SMany true) else if c =? 2 then seq_token (SSepBy true) else [63].
+(* the value of a literal leaf: a float64 / time.Duration is printed by its lexeme only, the decoded
+   node carries the dummy value 0 (the token tells which of the two it is); [lval_eqb] ignores it *)
+Definition tok_DURATION : list N := [84;73;77;69;95;68;85;82;65;84;73;79;78].     (* "TIME_DURATION" *)
+Definition lval_of_obs (tok : list N) (o : obs) : option lval :=
+  match o with
+  | OT t l =>
+    if String.eqb t "r" then match l with [ON c] => Some (VChar c) | _ => None end
+    else if String.eqb t "i" then match l with [OZ z] => Some (VInt z) | _ => None end
+    else if String.eqb t "s" then match l with [OS s] => Some (VStr s) | _ => None end
+    else if String.eqb t "b" then match l with [OB b] => Some (VBool b) | _ => None end
+    else if String.eqb t "n" then match l with [] => Some VNil | _ => None end
+    else if String.eqb t "lex" then
+      match l with [OS _] => Some (if list_N_eqb tok tok_DURATION then VDur 0 else VFloat 0) | _ => None end
+    else None
+  | _ => None
+  end.
 Fixpoint node_of_obs (o : obs) : option node :=
   match o with
   | OT t l =>
     if String.eqb t "r" then match l with [OS [c; p; r]] => Some (NTerm [c] (VRune c) p r) | _ => None end
+    else if String.eqb t "T" then
+      match l with
+      | [OS tok; v; OS [p; r]] => match lval_of_obs tok v with Some lv => Some (NTerm tok lv p r) | None => None end
+      | _ => None
+      end
     else if String.eqb t "E" then match l with [ON p] => Some (NEmpty p) | _ => None end
     else if String.eqb t "F" then match l with [ON p] => Some (NEnd p) | _ => None end
     else if String.eqb t "N" then
@@ -44,9 +65,22 @@ Fixpoint nodes_of_obs (l : list obs) : option (list node) :=
   end.
 
 (* equality of nodes up to the (unobservable) interpreter *)
+(* values as far as the observation shows them: a rune is a rune whichever parser produced it; the numeric
+   value of a float64 / time.Duration is not observed (rendered by lexeme, i.e. by the node's span) *)
+Definition lval_eqb (a b : lval) : bool :=
+  match a, b with
+  | VRune c1, VRune c2 | VRune c1, VChar c2 | VChar c1, VRune c2 | VChar c1, VChar c2 => c1 =? c2
+  | VInt z1, VInt z2 => Z.eqb z1 z2
+  | VFloat _, VFloat _ => true
+  | VStr s1, VStr s2 => list_N_eqb s1 s2
+  | VBool b1, VBool b2 => Bool.eqb b1 b2
+  | VNil, VNil => true
+  | VDur _, VDur _ => true
+  | _, _ => false
+  end.
 Fixpoint node_eqb (a b : node) : bool :=
   match a, b with
-  | NTerm t1 (VRune c1) p1 r1, NTerm t2 (VRune c2) p2 r2 => list_N_eqb t1 t2 && (c1 =? c2) && (p1 =? p2) && (r1 =? r2)
+  | NTerm t1 v1 p1 r1, NTerm t2 v2 p2 r2 => list_N_eqb t1 t2 && lval_eqb v1 v2 && (p1 =? p2) && (r1 =? r2)
   | NEmpty p, NEmpty q => p =? q
   | NEnd p, NEnd q => p =? q
   | NNonTerm t1 _ cs1 p1 r1, NNonTerm t2 _ cs2 p2 r2 =>
